@@ -35,7 +35,20 @@ TD_LO_US = -999999999 * 86400 * US
 TD_HI_US = 999999999 * 86400 * US + 86400 * US - 1
 DTM_LO_US = -60052752000 * US
 DTM_HI_US = 255485145599 * US + 999999
-TZ = {0: None, 1: dt.timezone.utc, 2: dt.timezone(dt.timedelta(hours=1))}
+class _CustomTZ(dt.tzinfo):
+    """a tzinfo that is not a datetime.timezone (like zoneinfo.ZoneInfo): same +01:00 offset as kind 2"""
+
+    def utcoffset(self, d):
+        return dt.timedelta(hours=1)
+
+    def dst(self, d):
+        return dt.timedelta(0)
+
+    def tzname(self, d):
+        return "custom+01"
+
+
+TZ = {0: None, 1: dt.timezone.utc, 2: dt.timezone(dt.timedelta(hours=1)), 3: _CustomTZ()}
 
 
 class WrongType(Exception):
@@ -244,7 +257,7 @@ def to_coq(c, r):
         return "ConvTd %s %s %s %s %s" % (c["src"], c["dst"], z(c["v"]), out, b("ok" in r and r["ok"]["same"]))
     if k == "conv_dtm":
         out = "(Raise %s)" % r["exc"] if "exc" in r else "(Ok (%s, %s, %s))" % tuple(z(x) for x in r["ok"]["r"])
-        return "ConvDtm %s %s %s %s %s %s %s" % (c["src"], c["dst"], z(c["v"]), z(c["tz"]), z(c["fold"]), out, b("ok" in r and r["ok"]["same"]))
+        return "ConvDtm %s %s %s %s %s %s %s" % (c["src"], c["dst"], z(c["v"]), z(min(c["tz"], 2)), z(c["fold"]), out, b("ok" in r and r["ok"]["same"]))
     if k == "mono":
         return "Mono %s %s %s %s %s %s %s" % (b(c["dtm"]), c["src"], c["dst"], z(c["a"]), z(c["b"]), vf.resc(r["ra"]), vf.resc(r["rb"]))
     if k == "roundtrip":
@@ -336,7 +349,7 @@ def gen_cases(rng, tier):
                 v = _value_for(rng, src, True)
                 if src == "Bt":
                     v = max(-60052752000 * T64, min(4712869095517621926724475289599, v)) if rng.random() < 0.9 else v
-                tz = rng.choice([0, 1, 1, 1, 2]) if src != "Bt" else 1
+                tz = rng.choice([0, 1, 1, 1, 2, 3]) if src != "Bt" else 1
                 if src != "Bt":   # stay a day inside the calendar range so that every tz kind is constructible
                     day = 86400 * UNIT[src]
                     v = max(DTM_LO_US * (UNIT[src] // US) + day, min(DTM_HI_US * (UNIT[src] // US) - day, v))
